@@ -30,6 +30,12 @@ type verifGunConfig struct {
 	Tag      string `config:"tag"`
 	// ShotUs is an optional sleep per shot (microseconds).
 	ShotUs int `config:"shot_us"`
+	// PanicAfter > 0: the gun whose own shot counter reaches this number panics INSTEAD of making that shot. Just before, it
+	// writes the current sizes of SnapshotFiles (the post files of all pools: reports that have completed by now) to
+	// SnapshotOut, one decimal number per line - a lower bound of what every pool's output must hold after the process ended.
+	PanicAfter    int      `config:"panic_after"`
+	SnapshotFiles []string `config:"snapshot_files"`
+	SnapshotOut   string   `config:"snapshot_out"`
 }
 
 type verifGun struct {
@@ -58,6 +64,23 @@ func (g *verifGun) Bind(aggr core.Aggregator, deps core.GunDeps) error {
 func (g *verifGun) Shoot(core.Ammo) {
 	if g.conf.ShotUs > 0 {
 		time.Sleep(time.Duration(g.conf.ShotUs) * time.Microsecond)
+	}
+	if g.conf.PanicAfter > 0 && g.n+1 >= g.conf.PanicAfter {
+		if g.conf.SnapshotOut != "" {
+			if _, err := os.Stat(g.conf.SnapshotOut); err != nil { // the first gun to get here
+				txt := ""
+				for _, f := range g.conf.SnapshotFiles {
+					var sz int64
+					if st, err := os.Stat(f); err == nil {
+						sz = st.Size()
+					}
+					txt += fmt.Sprintf("%d\n", sz)
+				}
+				_ = os.WriteFile(g.conf.SnapshotOut+".tmp", []byte(txt), 0o644)
+				_ = os.Rename(g.conf.SnapshotOut+".tmp", g.conf.SnapshotOut)
+			}
+		}
+		panic("verif-gun-panic-payload")
 	}
 	g.n++
 	s := netsample.Acquire(fmt.Sprintf("%s_i%d", g.conf.Tag, g.deps.InstanceID))
